@@ -197,10 +197,10 @@ def exec_fronts1(case):
                 out += [-7] if exc is not None else [len(g[name])] + g[name]
             r.out = out
             ctags = dict(tags, container="bool" if mode == 2 else "uint8")
-            if g_ind != e_ind:
+            if g_ind != e_ind and (step, rstep, fstep) == (1, 1, -1):
                 r.bad.append(("fronts indices on a %s train are %s, its changes are at %s" % (
                     ctags["container"], g_ind and g_ind[:8], e_ind[:8]), dict(ctags, defect="indices")))
-            elif g_sg != e_sg or g["rises"] != e_ri or g["falls"] != e_fa:
+            elif g_ind != e_ind or g_sg != e_sg or g["rises"] != e_ri or g["falls"] != e_fa:
                 r.bad.append(("%s train %s: polarities %s (expected %s), rises %s (expected %s), falls %s (expected %s)"
                               % (ctags["container"], x[:10], g_sg and g_sg[:6], e_sg[:6], g["rises"] and g["rises"][:6],
                                  e_ri[:6], "raises %r" % (res["falls"][1],) if g["falls"] is None else g["falls"][:6],
@@ -1008,6 +1008,7 @@ def run(ctx):
     dist = {}
     nontrivial = set()
     words_seen = set()
+    cont_seen = {}
     inexact = 0
     observations = []
     for case in cases:
@@ -1024,7 +1025,10 @@ def run(ctx):
         if res.info.get("observation"):
             observations.append(res.info["observation"])
         if case["kind"] == "split" and case.get("exhaustive") and not res.bad:
-            words_seen.update(v % 65536 for v in case["values"])
+            if "container" in case:
+                cont_seen.setdefault(case["container"], set()).update(v % 65536 for v in case["values"])
+            else:
+                words_seen.update(v % 65536 for v in case["values"])
         if res.nontrivial:
             nontrivial.add(json.dumps(case, sort_keys=True))
         if res.inp is not None and res.out is not None:
@@ -1043,6 +1047,7 @@ def run(ctx):
         if c:
             samples.append(c)
     ctx.measurements["all_65536_words_decoded_correctly_by_split_sync"] = len(words_seen) == 65536
+    ctx.measurements["words_decoded_correctly_per_other_container"] = {k: len(v) for k, v in sorted(cont_seen.items())}
     if len(words_seen) != 65536 and not ctx.oracle_failures:
         ctx.disagree("exhaustive word sweep incomplete (%d words)" % len(words_seen), {"kind": "harness"})
     return common.finish(
